@@ -37,6 +37,8 @@ class G:
         return "e%d" % self.r.randrange(max(1, n))
     def sref(self, slack=1):
         n = self.nS + slack
+        # now and then a `SystemCommand` that names a plain entity (alive, but without a callback)
+        if self.r.random() < 0.04: return self.eref()
         return "s%d" % self.r.randrange(max(1, n))
     def anyref(self):
         return self.eref() if self.r.random() < 0.8 else self.sref()
